@@ -462,6 +462,105 @@ def ev_forms(case):
 EVALUATORS.update({"forms": ev_forms})
 
 
+# ----------------------------------------------------------------------------- the object owns its data (added)
+# "A likelihood object returns the sum of log-densities of the data / uncertainties it was GIVEN": what the caller does with its own
+# containers afterwards (re-using a buffer for the next data set, rescaling an error array, editing a list) is not an input of any
+# method.  Combined with the call-history evaluator: one object, one theta array updated in place, and before one of the calls the
+# caller overwrites IN PLACE the very objects it handed to the constructor.
+def _overwrite(obj, new):
+    """write the numbers ``new`` into the caller's container ``obj`` in place; False when the container is immutable"""
+    new = [float(t) for t in np.asarray(new, dtype=float).reshape(-1)]
+    if isinstance(obj, np.ndarray):
+        obj[...] = np.array(new, dtype=float).reshape(obj.shape)
+        return True
+    if isinstance(obj, list):
+        if obj and isinstance(obj[0], list):
+            flat = iter(new)
+            for inner in obj:
+                for j in range(len(inner)):
+                    inner[j] = next(flat)
+        else:
+            obj[:] = new
+        return True
+    return False
+
+
+def ev_owns(case):
+    import inference.likelihoods as L
+    from mc.core import LibFailure
+    from mc.ref import c05_ref as R
+
+    kind, model, n, which = case["kind"], case["model"], case["n"], case["which"]
+    F, J, p = make_model(model, n)
+    cls = getattr(L, R.CLASS_OF[kind])
+    kw = "gamma" if kind == "cauchy" else "sigma"
+    sig = np.array(sigma_vector(case["sigma"], n, case["rot"]))
+    thetas = [np.array(t[:p], dtype=float) for t in THETA_MENU[model]]
+    res = np.array([0.5, -3.0, 30.0, 0.0, -0.5])
+    y = F(thetas[0]) + res[:n] * sig
+    # what the caller writes into its buffers afterwards: the next data set / rescaled uncertainties (still positive)
+    y_next = F(thetas[1]) + res[::-1][:n] * sig + 1.0
+    sig_next = 3.0 * sig[::-1] + 0.125
+    fails, tags, seen, nev = [], set(), set(), 0
+    want = {}
+    for ti in range(len(thetas)):
+        with lib("fresh-object"):
+            fresh = cls(y_data=y.copy(), **{kw: sig.copy()}, forward_model=F, forward_model_jacobian=J)
+            for call in ("__call__", "gradient", "cost", "cost_gradient"):
+                want[ti, call] = np.asarray(getattr(fresh, call)(thetas[ti].copy()))
+        nev += 4
+    names = [f[0] for f in c05_forms(y, False)] + ["flat-array"]
+    for fname in names:
+        def build(vals):
+            return np.array(vals, dtype=float) if fname == "flat-array" else dict(c05_forms(vals, False))[fname]
+
+        for seq in case["seqs"]:
+            for wpos in range(len(seq)):
+                y_in = build(y) if which in ("data", "both") else y.copy()
+                s_in = build(sig) if which in ("uncertainty", "both") else sig.copy()
+                cont = type(y_in if which != "uncertainty" else s_in).__name__
+                try:
+                    with lib(f"{cls.__name__}-construct-form", allow=(ValueError, TypeError)):
+                        obj = cls(y_data=y_in, **{kw: s_in}, forward_model=F, forward_model_jacobian=J)
+                except (ValueError, TypeError, LibFailure):
+                    tags.add(f"owns {which}={fname}: not accepted by the constructor")
+                    break
+                theta = thetas[0].copy()
+                written = False
+                for step in range(len(seq) + 1):
+                    if step == wpos:
+                        done = [(_overwrite(y_in, y_next) if which in ("data", "both") else True), (_overwrite(s_in, sig_next) if which in ("uncertainty", "both") else True)]
+                        written = all(done)
+                        if not written:
+                            break
+                    if step == len(seq):
+                        break
+                    ti, call = seq[step]
+                    theta[:] = thetas[ti]
+                    with lib(f"owns-{call}"):
+                        got = np.asarray(getattr(obj, call)(theta))
+                    nev += 1
+                    w = want[ti, call]
+                    if got.shape != w.shape or not np.array_equal(got, w):
+                        key = f"owns/{cls.__name__}/{call}-changes-when-the-caller-overwrites-its-{'data-and-uncertainty' if which == 'both' else which}-{cont}-afterwards" if step >= wpos \
+                            else f"owns/{cls.__name__}/{call}-differs-from-fresh-object-before-any-overwrite"
+                        if key not in seen:
+                            seen.add(key)
+                            fails.append(fail(key, f"{cls.__name__} built from {which} given as {fname}; the caller then overwrote its own {cont} in place (before call #{wpos} of {seq}): {call} at theta "
+                                              f"{thetas[ti].tolist()} = {got.tolist()}, but the log-density of the data GIVEN (fresh object on copies of the original numbers) is {w.tolist()}",
+                                              form=fname, which=which, sequence=seq, overwrite_before_step=wpos, step=step, y_given=y.tolist(), sigma_given=sig.tolist(),
+                                              y_written_afterwards=y_next.tolist(), sigma_written_afterwards=sig_next.tolist()))
+                        break
+                if not written:
+                    tags.add(f"owns {which}={fname}: immutable container (nothing to overwrite)")
+                    break
+                tags.add(f"owns {kind} {which}={fname} ({cont}) overwrite-before-call={min(wpos, 2)} of {len(seq)}")
+    return {"fails": fails[:20], "n": nev, "tags": tags, "sample": {"kind": kind, "model": model, "which": which, "forms": names}}
+
+
+EVALUATORS.update({"owns": ev_owns})
+
+
 def run(ck):
     from mc.ref import c05_ref as R
 
@@ -473,6 +572,11 @@ def run(ck):
     seqs = [[(a, c1), (b, c2)] for a, b in ((0, 1), (1, 0), (0, 0)) for c1 in calls for c2 in calls]
     seqs += [[(0, "__call__"), (1, "gradient"), (2, "__call__"), (1, "cost_gradient"), (0, "gradient")]]
     ck.run_cases("history", [dict(kind=k, model=m, n=3, sigma="mixed", seqs=seqs) for k in R.KINDS for m in ("identity", "linear", "quadratic")], chunk=1)
+    # the object owns its data: the caller overwrites its data / uncertainty containers in place somewhere in a call history
+    oseqs = [[(a, c1), (b, c2)] for a, b in ((0, 1), (0, 0)) for c1 in calls for c2 in calls] + [seqs[-1]]
+    ores = ck.run_cases("owns", [dict(kind=k, model=m, n=3, sigma=["mixed", "1", "1e-3"][(ki + mi + wi + seed) % 3], rot=(seed + mi + wi) % 5, which=w, seqs=oseqs)
+                                 for ki, k in enumerate(R.KINDS) for mi, m in enumerate(("identity", "linear", "quadratic")) for wi, w in enumerate(("data", "uncertainty", "both"))], chunk=1)
+    ck.extra["owns_data"] = {"configurations": len(ores), "library_calls": int(sum(r.get("n", 0) for r in ores))}
     ck.run_cases("many", [dict(kind=k, n=n, scale=sc) for k in R.KINDS for n in ((400, 2000) if ck.quick else (400, 2000, 6000)) for sc in (1e-4, 0.05, 1.0, 30.0, 1e4)], chunk=1)
     alphabet = RES_QUICK if quick else RES_THOROUGH
     sigmas = ["1e-6", "1e-3", "1", "1e3", "mixed"] + ([] if quick else ["mixed2"])
@@ -524,6 +628,15 @@ def run(ck):
         "value, gradient, cost, cost_gradient compared with a 50-digit reference on the same floats.  Distinct = (class, n, sigma pattern, model, form, "
         "largest |residual|, zero residual present, signs).  Plus quadrature of exp(value) over y (n=1) for normalisation and s.d."
     )
+    ck.rule += (
+        "  Ownership of the data (evaluator owns, keys owns/<Class>/<call>-changes-when-the-caller-overwrites-its-<data|uncertainty|data-and-uncertainty>-<ndarray|list>-afterwards): for each class x "
+        "forward model x {data, uncertainties, both} x every mutable container form the constructor accepts (flat array, list, (n,1) / (1,n) / (n,1,1) arrays, list of 1-lists, (1,n) list, strided "
+        "views) x every two-call history over {__call__, gradient, cost, cost_gradient} at the same / another theta (theta array updated in place; plus one five-call history) x every position of the "
+        "overwrite (before the first call or between two calls): the caller writes the NEXT data set / rescaled uncertainties into the very objects it passed (ndarray[...] =, list[:] =, "
+        "inner-list items) and every call must return bit for bit what a fresh object built from copies of the ORIGINAL numbers returns; distinct = (class, argument, form, container, overwrite position)."
+    )
+    ck.assume("ownership: the property speaks of the data and uncertainties the object was GIVEN, so in-place changes the caller makes to its own containers after construction are not inputs of any method; "
+              "tuples / numbers are immutable and only counted; the forward model and Jacobian callables are not mutated")
     ck.assume("input forms: which container forms the constructors accept is not part of the claim (any may be refused with ValueError / TypeError); a single number given as the uncertainty of n > 1 data points, "
               "if accepted, can only mean that uncertainty for every point")
     ck.assume("residuals are the listed multiples of sigma (up to 1e4 sigma), sigma in 1e-6..6e4, n <= 5, three forward models returning 1-D float arrays")
